@@ -25,6 +25,7 @@ fn spec(t: Tier) -> Spec {
         ),
         bound: json!({"units": UNITS.iter().map(|u| u.0).collect::<Vec<_>>(), "size_k_max": t.pick(3, 4), "time_k_max": t.pick(2, 5), "big_N": ["2^31", "2^63-1", "2^63", "2^64-1"]}),
         assumptions: vec![
+            "conjunction slice: 40 -size operands (5 units x 8 numbers/forms) pairwise in one expression over 16 files with repeated lengths select the intersection of what each selects alone (binary)".into(),
             "operands >= 2^64 are outside the check (rejected by the code, which C11 judges)".into(),
             "ages are >= 0 (scope of the statement); tmpfs keeps nanosecond timestamps and sparse sizes".into(),
         ],
